@@ -66,6 +66,8 @@ PER_SHARE = [(tv, wv, nl) for tv in ("none", "pass", "fail") for wv in (0, 1) fo
 # (0, 1, eq, b""), which passes only on a share without data; "short" = (0, 2, eq, <5 bytes>), which
 # compares 2 bytes of the share with a 5-byte specimen and can never pass
 PER_SHARE += [("absent", 1, None), ("absent", 0, None), ("short", 1, None)]
+# two vectors for one share, the failing one first and a passing one last: all of them must hold
+PER_SHARE += [("fail+pass", 1, None)]
 
 
 def tv_passes(tv, cur):
@@ -150,6 +152,8 @@ def build_request(named, combo, state):
             testv = []
         elif tv == "pass":
             testv = [(0, 3, b"eq", (cur[1] if cur else b"")[:3])]
+        elif tv == "fail+pass":
+            testv = list(FAIL_TV) + [(0, 3, b"eq", (cur[1] if cur else b"")[:3])]
         elif tv == "absent":
             testv = [(0, 1, b"eq", b"")]
         elif tv == "short":
